@@ -58,6 +58,8 @@ MUTANTS = [
     ("M92", "address_base.py", "    return sorted(addresses_)", "    return addresses_", "C14"),
     ("M101", "address_ag.py", "        if self._sequence:\n            return f\"{self._sequence} {line_}\"", "        if self._sequence and self._platform != \"ios\":\n            return f\"{self._sequence} {line_}\"", "C02"),
     ("M102", "acl.py", "        ace = \"\\n\".join([f\"{self._indent}{o}\" for o in items])", "        ace = \"\\n\".join([f\"{self._indent or DEF_INDENT}{o}\" for o in items])", "C06"),
+    ("M110", "functions.py", "        if len(ports_i) >= port_count:\n            items.append(ports_i)", "        if len(ports_i) > port_count:\n            items.append(ports_i)", "C18"),
+    ("M111", "functions.py", "        if ports_i:\n            items.append(ports_i)\n\n    if not port_range:", "        if len(ports_i) > 1:\n            items.append(ports_i)\n\n    if not port_range:", "C18"),
     ("M30", "port.py", "            return [ports[0] - 1] if ports else [65535]", "            return [ports[0]] if ports else [65535]", "C08"),
     ("M31", "port.py", "            return [ports[-1] + 1] if ports else [1]", "            return [ports[1] + 1] if ports else [1]", "C08"),
     ("M32", "port.py", "        ports = sorted(ports)\n        if operator == \"eq\":", "        if operator == \"eq\":", "C08"),
